@@ -103,3 +103,7 @@ def classify(c):
     if any(a == "R" and b == "L" for a, b in zip(ops, ops[1:])):
         ks.append("reset-then-collect")
     return ks
+
+
+# functions of /repo whose executed-line coverage by this run is reported in the evidence
+ANCHORS = [('swh/model/merkle.py', 'MerkleNode.*')]
